@@ -17,7 +17,7 @@ RULE = ("Valid side, strict: Hypothesis draws RunSpecs over continuous tasks (si
         "of optimize() is a failure keyed (optimizer, exception type, innermost pyvolutionary file:function) and a "
         "result must have evolution, rates and best_solution populated. Valid side, per pair: for every (optimizer, "
         "integer-coded encoding) pair whose committed baseline pass rate is >= 90% ('works today'), 12 generated "
-        "cases; violated only if ALL fail. Invalid side: generated invalid calls (no configuration, unknown mode "
+        "serial cases, and (thorough: every optimizer; quick: one optimizer in seven, rotating with VERIF_SEED) 6 thread-mode and 6 process-mode cases per pair judged against the pooled baseline; violated only if ALL cases of a pair and mode fail. Invalid side: generated invalid calls (no configuration, unknown mode "
         "strings, workers <= 0, weight/objective count mismatch both ways, negative weights, inverted / equal / "
         "length-mismatched bounds, n_vars <= 0) must raise ValueError (ValidationError is one) with the step counter "
         "still at 0. Non-trivial = completed strict run with max_cycles == 1, dimension 1, population != 1x, a max "
@@ -184,12 +184,16 @@ def load_pairs():
         return json.load(fh)["pairs"]
 
 
-def pair_strategy(optimizer, enc):
+def pair_strategy(optimizer, enc, mode="serial"):
     return strategies.run_spec(
         optimizer, task=strategies.task_spec(encodings=(enc,)),
-        config=strategies.config_spec(optimizer, max_cycles=(2, 6), perturb=0.0, pop_mults=(1,), stopping=False,
-                                      pop_offsets=(0,)),
-        modes=("serial",))
+        config=strategies.config_spec(optimizer, max_cycles=(2, 6) if mode == "serial" else (1, 3), perturb=0.0,
+                                      pop_mults=(1,), stopping=False, pop_offsets=(0,)),
+        modes=(mode,), max_workers=4)
+
+
+POOL_N = 6            # pooled cases per (optimizer, encoding, mode); all must fail for a violation
+POOL_ROTATION = 7     # quick tier: one optimizer in seven (rotating with VERIF_SEED) gets the pooled pair cases
 
 
 def run_pair_shard(shard, tier, seed):
@@ -216,25 +220,44 @@ def run_pair_shard(shard, tier, seed):
                      max_rounds=1)
         n_ok = sum(1 for o in outcomes if o[0])
         rates[enc] = [n_ok, len(outcomes)]
-        if base is not None and base["rate"] >= 0.9 and len(outcomes) >= 12 and n_ok == 0:
-            key = f"C06|pair|{name}|{enc}|wholesale"
-            if key not in ctx.known:
-                payload = {"pair": [name, enc], "specs": [o[1] for o in outcomes]}
-                detail = (f"pair worked in {base['ok']}/{base['n']} baseline runs but all {len(outcomes)} generated "
-                          f"cases now fail ({sorted({o[2] for o in outcomes})[:3]})")
-                path = runner.write_replay(ID, ctx.shard, payload, [(key, detail)])
-                ctx.violations.append({"key": key, "detail": detail, "replay": path})
-            else:
-                ctx.known_hits[key] += 1
+        _judge_pair(ctx, name, enc, "serial", base, outcomes, 12)
+        if shard.get("pooled"):
+            for mode in ("thread", "process"):
+                base_m = (base or {}).get(mode)
+                outcomes = []
+                runner.drive(ctx, pair_strategy(name, enc, mode), case, POOL_N, runner.mix_seed(seed, enc, mode),
+                             shrink=False, max_rounds=1)
+                rates[f"{enc}:{mode}"] = [sum(1 for o in outcomes if o[0]), len(outcomes)]
+                _judge_pair(ctx, name, enc, mode, base_m, outcomes, POOL_N)
     ctx.extra["pair_pass_counts"] = {f"{name}|{e}": f"{r[0]}/{r[1]}" for e, r in rates.items()}
     return ctx.to_dict()
+
+
+def _judge_pair(ctx, name, enc, mode, base, outcomes, need):
+    n_ok = sum(1 for o in outcomes if o[0])
+    if base is None or base.get("rate", 0) < 0.9 or len(outcomes) < need or n_ok != 0:
+        return
+    key = f"C06|pair|{name}|{enc}|wholesale" if mode == "serial" else f"C06|pair|{name}|{enc}|{mode}|wholesale"
+    if key in ctx.known:
+        ctx.known_hits[key] += 1
+        return
+    payload = {"pair": [name, enc], "mode": mode, "specs": [o[1] for o in outcomes]}
+    detail = (f"pair worked in {base['ok']}/{base['n']} baseline runs ({mode} mode) but all {len(outcomes)} generated "
+              f"cases now fail ({sorted({o[2] for o in outcomes})[:3]})")
+    path = runner.write_replay(ID, ctx.shard + ":" + enc + ":" + mode, payload, [(key, detail)])
+    ctx.violations.append({"key": key, "detail": detail, "replay": path})
 
 
 # ---------------------------------------------------------------------------------------------------------
 def shards(tier):
     out = campaign.optimizer_shards(BUDGET[tier], extra={"kind": "strict"})
-    for sh in campaign.optimizer_shards(PAIR_N[tier]):
-        out.append(dict(sh, name="pairs:" + sh["name"], kind="pairs"))
+    try:
+        rot = int(os.environ.get("VERIF_SEED", "1")) % POOL_ROTATION
+    except ValueError:
+        rot = 1
+    for i, sh in enumerate(campaign.optimizer_shards(PAIR_N[tier])):
+        pooled = tier == "thorough" or i % POOL_ROTATION == rot
+        out.append(dict(sh, name="pairs:" + sh["name"], kind="pairs", pooled=pooled))
     for i in range(8):
         out.append({"name": f"invalid-{i}", "kind": "invalid", "n": INVALID[tier] // 8})
     return out
@@ -271,6 +294,8 @@ def replay(payload):
         oks = [observe.run(s, keep_snaps=False, snapshots_cfg=False).ok for s in payload["specs"]]
         if not any(oks):
             name, enc = payload["pair"]
-            return [(f"C06|pair|{name}|{enc}|wholesale", f"all {len(oks)} recorded cases still fail")]
+            mode = payload.get("mode", "serial")
+            key = f"C06|pair|{name}|{enc}|wholesale" if mode == "serial" else f"C06|pair|{name}|{enc}|{mode}|wholesale"
+            return [(key, f"all {len(oks)} recorded cases still fail")]
         return []
     return campaign.replay(payload, judge_strict, OKW)
